@@ -115,7 +115,29 @@ def run_shard(spec, res):
             lambda v: SIA(v, 0, 9) if isinstance(v, int) or v is None else SIA(1, 0, 9),
             lambda v: RA("r", v) if isinstance(v, int) and not isinstance(v, bool) and v >= 0 else RA(str(v), 0),
         ]
-        for grp in payload_groups():
+        groups = payload_groups()
+        # adversarial payloads computed from the serialiser itself: for a value v, the string / integer whose own
+        # bytes are the bytes v is written as (with and without a leading kind byte)
+        ser = getattr(claripy.ast.Base, "_arg_serialize", None)
+        if ser is not None:
+            for v in [None, True, False, 0, 1, 15, -1, 255, 256, 1.5, -0.0, "a", "", (1, 2), ("a", None)]:
+                try:
+                    raw = ser(v)
+                except Exception:  # noqa: BLE001
+                    continue
+                cands = []
+                for chunk in (raw, raw[1:], raw[4:], raw[5:]):
+                    if not chunk:
+                        continue
+                    try:
+                        cands.append(chunk.decode("utf-8"))
+                    except UnicodeDecodeError:
+                        cands.append(chunk.decode("latin-1"))
+                    cands.append(int.from_bytes(chunk, "little", signed=True))
+                grp = [v] + [c for c in cands if not (type(c) is type(v) and c == v)]
+                groups.append(grp)
+                res.count("serialiser_derived_groups")
+        for grp in groups:
             for mk in makers:
                 for h in hosts:
                     objs = []
@@ -187,6 +209,17 @@ def run_shard(spec, res):
                 keep += list(a_)
                 if a_[0] is a_[1]:
                     res.violation({"kind": "hashcons", "what": "different-requests-same-object", "node": repr(a_[0]), "observed": [f"ESI({wv})", f"BVV({v}, {wv})"]})
+        # a constant built with annotations next to the plain constant (both build orders; claripy keeps a cache of
+        # constants beside the hash-cons table)
+        for v, w_, first in ((5, 8, "annotated"), (6, 8, "plain"), (0, 64, "annotated"), (2**64 - 1, 64, "plain")):
+            mk_a = lambda: claripy.BVV(v, w_, annotations=(U(("const", v)),))  # noqa: E731
+            mk_p = lambda: claripy.BVV(v, w_)  # noqa: E731
+            objs = (mk_a(), mk_p()) if first == "annotated" else (mk_p(), mk_a())[::-1]
+            a_, p_ = objs
+            keep += [a_, p_]
+            res.case(["literal-pair", "annotated-constant", v, w_, first], True)
+            if a_ is p_ or p_.annotations or not a_.annotations or mk_p() is not p_:
+                res.violation({"kind": "hashcons", "what": "different-requests-same-object", "node": repr(p_), "observed": [f"BVV({v}, {w_}, annotations=...)", f"BVV({v}, {w_})", repr(p_.annotations), first + " first"]})
         for f1, f2 in pairs:
             a1, a1b, a2 = f1(), f1(), f2()
             keep += [a1, a2]
